@@ -32,6 +32,13 @@ Theorem c19_kill_chain_stages_in_order : forall last s o, 2 <= last < NOT_STARTE
   kmove last (k_cur s) (k_cur (k_step last s o)) /\ (o <> KFail -> k_cur s <> FAILED -> kwf last (k_step last s o)).
 Proof. exact kill_chain_order. Qed.
 
+(* whatever made the attacker's request come back other than "success" (refused, target gone, still pending), the stage
+   is not left forwards: it is held when stages are repeated and the chain fails otherwise *)
+Theorem c19_unsuccessful_response_never_advances : forall last s rs,
+  k_cur (k_step last s (KReturn false rs)) = (if rs then k_cur s else FAILED) /\
+  k_next (k_step last s (KReturn false rs)) = k_next s /\
+  k_step last s (KReturn true rs) = s.
+Proof. exact unsuccessful_response_never_advances. Qed.
 Example c19_example :
   run_case (3, 1, 4, 1, 3, false, [1; -1; 0; 1; 0], 30) = [4; 7; 11] /\
   choice [1 # 2; 0; 1 # 2]%Q (1 # 2)%Q = 2%nat /\ map snd (sort_kv [(2, 0%Q); (1, (1 # 2)%Q); (0, (1 # 2)%Q)]) = [1 # 2; 1 # 2; 0]%Q.
